@@ -73,44 +73,104 @@ static std::string unescapeStr(const std::string &content) {
     return "ok " + tohex(buf.get(), l) + " " + tohex(buf.get(), n);
 }
 
+// one case -> its canonical result line
+static std::string runCase(const std::vector<std::string> &a) {
+    const std::string &op = a[0];
+    std::ostringstream o;
+    try {
+        if (op == "html") {
+            const std::string in = unhex(a.at(1));
+            o << tohex(std::string(html_quote(in.c_str())));
+        }
+        else if (op == "mime") {
+            const std::string in = unhex(a.at(1));
+            char *r = Format::QuoteMimeBlob(in.c_str());
+            o << tohex(std::string(r));
+            xfree(r);
+        }
+        else if (op == "esc") {
+            const std::string in = unhex(a.at(2));
+            const std::string e = rfc1738_do_escape(in.c_str(), std::stoi(a.at(1)));
+            o << tohex(e) << " " << unescapeStr(e);
+        }
+        else if (op == "unesc") {
+            o << unescapeStr(unhex(a.at(1)));
+        }
+        else if (op == "uri.rt") {
+            const std::string e = encodeBy(a.at(1), unhex(a.at(2)));
+            o << tohex(e) << " " << decodeStr(e);
+        }
+        else if (op == "uri.dec") {
+            o << decodeStr(unhex(a.at(1)));
+        }
+        else o << "ERR unknown-entry " << op;
+    } catch (const std::exception &e) { o.str(""); o << "EXC " << e.what(); }
+    catch (...) { o.str(""); o << "EXC"; }
+    return o.str();
+}
+
+static bool endsWith(const std::string &s, const std::string &t) {
+    return s.size() >= t.size() && s.compare(s.size() - t.size(), t.size(), t) == 0;
+}
+
+// sweep <op> <arg|-> <prefix> <depth>: every input prefix+suffix, suffix over all byte strings of
+// exactly <depth> bytes in lexicographic order; prints the number of round-trip failures (inputs
+// without / with a '%' counted apart), the first failing input and an FNV-1a digest of all the
+// result lines the single cases would have printed (the model runner computes the same)
+static std::string runSweep(const std::vector<std::string> &a) {
+    const std::string op = a.at(1), arg = a.at(2);
+    const std::string prefix = unhex(a.at(3));
+    const int depth = std::stoi(a.at(4));
+    uint64_t h = 14695981039346656037ULL;
+    uint64_t n = 0, fail = 0, failpct = 0;
+    std::string first = "none";
+    std::string in = prefix + std::string(depth, '\0');
+    std::vector<int> idx(depth, 0);
+    const bool twoArgs = (op == "esc" || op == "uri.rt");
+    while (true) {
+        for (int k = 0; k < depth; ++k) in[prefix.size() + k] = static_cast<char>(idx[k]);
+        const std::string hex = tohex(in);
+        std::vector<std::string> c;
+        c.push_back(op); if (twoArgs) c.push_back(arg); c.push_back(hex);
+        const std::string line = runCase(c);
+        for (const char ch : line) { h ^= static_cast<unsigned char>(ch); h *= 1099511628211ULL; }
+        h ^= 10; h *= 1099511628211ULL;
+        ++n;
+        bool bad = false;
+        if (op == "uri.rt") bad = !endsWith(line, " ok " + hex);
+        else if (op == "esc") {
+            const auto f = splitws(line);
+            const std::string want = tohex(std::string(in.c_str()));
+            bad = !(f.size() == 4 && f[1] == "ok" && f[2] == want);
+        }
+        if (bad) {
+            if (in.find('%') != std::string::npos) ++failpct; else ++fail;
+            if (first == "none") first = hex;
+        }
+        int k = depth - 1;
+        while (k >= 0 && idx[k] == 255) { idx[k] = 0; --k; }
+        if (k < 0) break;
+        ++idx[k];
+    }
+    char buf[200];
+    snprintf(buf, sizeof(buf), "n=%llu fail=%llu failpct=%llu first=%s h=%016llx",
+             (unsigned long long)n, (unsigned long long)fail, (unsigned long long)failpct, first.c_str(),
+             (unsigned long long)h);
+    return buf;
+}
+
 int main() {
     AnyP::UriScheme::Init();
     std::string line;
     while (std::getline(std::cin, line)) {
         auto a = splitws(line);
         if (a.empty()) { std::cout << "\n"; continue; }
-        const std::string &op = a[0];
-        std::ostringstream o;
+        std::string out;
         try {
-            if (op == "html") {
-                const std::string in = unhex(a[1]);
-                o << tohex(std::string(html_quote(in.c_str())));
-            }
-            else if (op == "mime") {
-                const std::string in = unhex(a[1]);
-                char *r = Format::QuoteMimeBlob(in.c_str());
-                o << tohex(std::string(r));
-                xfree(r);
-            }
-            else if (op == "esc") {
-                const std::string in = unhex(a[2]);
-                const std::string e = rfc1738_do_escape(in.c_str(), std::stoi(a[1]));
-                o << tohex(e) << " " << unescapeStr(e);
-            }
-            else if (op == "unesc") {
-                o << unescapeStr(unhex(a[1]));
-            }
-            else if (op == "uri.rt") {
-                const std::string e = encodeBy(a[1], unhex(a[2]));
-                o << tohex(e) << " " << decodeStr(e);
-            }
-            else if (op == "uri.dec") {
-                o << decodeStr(unhex(a[1]));
-            }
-            else o << "ERR unknown-entry " << op;
-        } catch (const std::exception &e) { o.str(""); o << "EXC " << e.what(); }
-        catch (...) { o.str(""); o << "EXC"; }
-        std::cout << o.str() << "\n" << std::flush;
+            out = (a[0] == "sweep") ? runSweep(a) : runCase(a);
+        } catch (const std::exception &e) { out = std::string("EXC ") + e.what(); }
+        catch (...) { out = "EXC"; }
+        std::cout << out << "\n" << std::flush;
     }
     return 0;
 }
